@@ -13,7 +13,7 @@ ID = "C05"
 MODULE = "DrandProofs.C05"
 THEOREMS = ["Drand.Net." + t for t in [
     "c05_step_progress", "c05_level", "c05_catchup", "c05_no_skip", "c05_no_skip_store", "c05_rejoin", "c05_rejoin_needed",
-    "c05_below_threshold_no_progress", "c05_heads_monotone", "c05_heads_monotone_run", "tie_net_rules"]]
+    "c05_below_threshold_no_progress", "c05_heads_monotone", "c05_heads_monotone_run", "c05_quiet_of_heads", "tie_net_rules"]]
 TRUSTED = ["Lean 4 kernel; axioms per theorem under coverage.axioms",
            "go2lean netrules extractor: the round arithmetic and guards of broadcastNextPartial, Handler.run, Catchup, ProcessPartialBeacon, "
            "runAggregator, tryAppend, shouldSync, SyncManager.Run/tryNode are regenerated into Gen.NetRules and USED by the model; "
